@@ -4,6 +4,7 @@
 // readiness (= the deadline may fall anywhere), Set records the signal.  All objects are static (link-time addresses).
 #include <yaclib/async/detail/wait_impl.hpp>
 #include "vp.h"
+#include <atomic>
 #include <new>
 using namespace yaclib;
 using namespace yaclib::detail;
@@ -18,11 +19,12 @@ static unsigned g_returned, g_set_after_return, g_sets;
 struct KEvent {
   struct Token {};
   Token Make() noexcept { return {}; }
-  void Wait(Token&) noexcept { vp_assume(ready); }                       // blocks until signalled
-  template <typename T> bool Wait(Token&, const T&) noexcept { return ready; }  // deadline may pass at any moment
-  void Set() noexcept { ++g_sets; if (g_returned) g_set_after_return = 1; ready = true; }
-  void Reset() noexcept { ready = false; }
-  bool ready = false;
+  // readiness is published/observed with release/acquire: the real MutexEvent does both under its mutex
+  void Wait(Token&) noexcept { vp_assume(ready.load(std::memory_order_acquire)); }                       // blocks until signalled
+  template <typename T> bool Wait(Token&, const T&) noexcept { return ready.load(std::memory_order_acquire); }  // deadline may pass at any moment
+  void Set() noexcept { ++g_sets; if (g_returned) g_set_after_return = 1; ready.store(true, std::memory_order_release); }
+  void Reset() noexcept { ready.store(false, std::memory_order_relaxed); }
+  std::atomic<bool> ready{false};
 };
 struct Timeout {};
 using Event = MultiEvent<KEvent, AtomicCounter, CallCallback>;
@@ -38,9 +40,9 @@ extern "C" void c11k_prologue() {
   new (vp_obj_c1) KCore{};
   new (vp_obj_ev) Event{std::size_t{3}};   // WaitCore: FinalEvent event{sizeof...(handles) + 1}
 }
-extern "C" void c11k_producer0() { Loop(&C0, C0.SetResult()); }
-extern "C" void c11k_producer1() { Loop(&C1, C1.SetResult()); }
-extern "C" void c11k_producer01() { Loop(&C0, C0.SetResult()); Loop(&C1, C1.SetResult()); }
+extern "C" void c11k_producer0() { vp_hb_write(0); Loop(&C0, C0.SetResult()); }
+extern "C" void c11k_producer1() { vp_hb_write(1); Loop(&C1, C1.SetResult()); }
+extern "C" void c11k_producer01() { vp_hb_write(0); Loop(&C0, C0.SetResult()); vp_hb_write(1); Loop(&C1, C1.SetResult()); }
 static bool WaitBoth(bool timed) {
   UniqueHandle h0{C0}, h1{C1};
   auto range = [&](auto&& func) noexcept { return static_cast<std::size_t>(func(h0)) + static_cast<std::size_t>(func(h1)); };
@@ -49,6 +51,7 @@ static bool WaitBoth(bool timed) {
 }
 static void Returned(bool r) {
   g_result = r;
+  if (r) { vp_hb_read(0); vp_hb_read(1); }   // C04: after a successful wait the Results are read
   g_ready0 = C0.Ready(); g_ready1 = C1.Ready();
   g_count_at_return = (unsigned)EV.count.load(std::memory_order_relaxed);
   g_returned = 1;   // from here on the real WaitCore's stack frame (the event) is gone
